@@ -177,8 +177,8 @@ theorem procRun_body (c : Bool) (body : Body) (b : Building) (acc : List Deliver
     simp only [procRun_trailers, hb, ht, List.nil_append]
 
 /-- C07 glue, server side: for the events of a well-formed request the handler receives exactly `reqSpec m` -/
-theorem glue_request (m : Msg) (me t pr : Bytes) (hs : m.start = .request me t pr) (hwf : wfMsg m = true) :
-    deliveredOf false (eventsOf m) = (reqSpec m).toList.map Delivered.req := by
+theorem procRun_request (m : Msg) (me t pr : Bytes) (hs : m.start = .request me t pr) (hwf : wfMsg m = true) :
+    procRun false none (eventsOf m) [] = some (none, (reqSpec m).toList.map Delivered.req) := by
   simp only [wfMsg, Bool.and_eq_true] at hwf
   obtain ⟨⟨⟨hstart, _⟩, hconn⟩, _⟩ := hwf
   rw [hs] at hstart
@@ -188,7 +188,7 @@ theorem glue_request (m : Msg) (me t pr : Bytes) (hs : m.start = .request me t p
     rcases ht with ⟨h1, h2⟩ | ⟨h1, _⟩
     · subst h1 h2; decide
     · simp [urlHostEmpty, h1]
-  simp only [deliveredOf, eventsOf, hs, Start.events, List.cons_append, List.nil_append, List.append_assoc]
+  simp only [eventsOf, hs, Start.events, List.cons_append, List.nil_append, List.append_assoc]
   simp only [procRun, procStep, serverStep, Bool.false_eq_true, if_false, List.append_nil]
   rw [procRun_append, procRun_headers_server]
   simp only [List.cons_append, List.nil_append, procRun, procStep, serverStep, Bool.false_eq_true, if_false, List.append_nil]
@@ -201,10 +201,14 @@ theorem glue_request (m : Msg) (me t pr : Bytes) (hs : m.start = .request me t p
   simp only [connectionOptions]
   rw [hc]
 
+theorem glue_request (m : Msg) (me t pr : Bytes) (hs : m.start = .request me t pr) (hwf : wfMsg m = true) :
+    deliveredOf false (eventsOf m) = (reqSpec m).toList.map Delivered.req := by
+  simp only [deliveredOf, procRun_request m me t pr hs hwf]
+
 /-- C07 glue, client side: for the events of a well-formed response the callback receives exactly `respSpec m` -/
-theorem glue_response (m : Msg) (pr code reason : Bytes) (hs : m.start = .status pr code reason) :
-    deliveredOf true (eventsOf m) = (respSpec m).toList.map Delivered.resp := by
-  simp only [deliveredOf, eventsOf, hs, Start.events, List.cons_append, List.nil_append, List.append_assoc]
+theorem procRun_response (m : Msg) (pr code reason : Bytes) (hs : m.start = .status pr code reason) :
+    procRun true none (eventsOf m) [] = some (none, (respSpec m).toList.map Delivered.resp) := by
+  simp only [eventsOf, hs, Start.events, List.cons_append, List.nil_append, List.append_assoc]
   simp only [procRun, procStep, clientStep, if_true, List.append_nil]
   rw [procRun_append, procRun_headers_client]
   simp only [List.cons_append, List.nil_append, procRun, procStep, clientStep, if_true, List.append_nil]
@@ -212,5 +216,61 @@ theorem glue_response (m : Msg) (pr code reason : Bytes) (hs : m.start = .status
   simp only [procRun, procStep, clientStep, if_true, List.nil_append]
   have hf : List.foldl (fun (h : HMap) (kv : Bytes × Bytes) => h.add kv.fst kv.snd) [] (fieldsOf m.headers) = multimap m.fields := rfl
   simp only [respSpec, hs, Option.toList, List.map_cons, List.map_nil, deliverResp, hf]
+
+theorem glue_response (m : Msg) (pr code reason : Bytes) (hs : m.start = .status pr code reason) :
+    deliveredOf true (eventsOf m) = (respSpec m).toList.map Delivered.resp := by
+  simp only [deliveredOf, procRun_response m pr code reason hs]
+
+/-- the accumulator of `procRun` is a prefix of its output -/
+theorem procRun_acc' (c : Bool) (evs : List Ev) : ∀ (cur : Option Building) (acc : List Delivered),
+    procRun c cur evs acc = (procRun c cur evs []).map fun r => (r.1, acc ++ r.2) := by
+  induction evs with
+  | nil => intro cur acc; simp [procRun]
+  | cons e es ih =>
+    intro cur acc
+    simp only [procRun]
+    cases procStep c cur e with
+    | none => rfl
+    | some r =>
+      simp only
+      rw [ih r.1 (acc ++ r.2), ih r.1 ([] ++ r.2)]
+      cases procRun c r.1 es [] with
+      | none => rfl
+      | some q => simp
+
+/-- pipelining at the delivered level, server side: for a sequence of well-formed requests the handler receives
+    exactly their `reqSpec`s, in order -/
+theorem procRun_requests (ms : List Msg)
+    (hall : ∀ m ∈ ms, wfMsg m = true ∧ ∃ me t pr, m.start = .request me t pr) :
+    procRun false none (ms.map eventsOf).flatten [] =
+      some (none, (ms.map fun m => (reqSpec m).toList.map Delivered.req).flatten) := by
+  induction ms with
+  | nil => simp [procRun]
+  | cons m ms ih =>
+    obtain ⟨hwf, me, t, pr, hs⟩ := hall m (by simp)
+    simp only [List.map_cons, List.flatten_cons]
+    rw [procRun_append, procRun_request m me t pr hs hwf]
+    simp only
+    rw [procRun_acc', ih (fun x hx => hall x (by simp [hx]))]
+    simp
+
+/-- pipelining at the delivered level, client side -/
+theorem procRun_responses (ms : List Msg) (hall : ∀ m ∈ ms, ∃ pr code reason, m.start = .status pr code reason) :
+    procRun true none (ms.map eventsOf).flatten [] =
+      some (none, (ms.map fun m => (respSpec m).toList.map Delivered.resp).flatten) := by
+  induction ms with
+  | nil => simp [procRun]
+  | cons m ms ih =>
+    obtain ⟨pr, code, reason, hs⟩ := hall m (by simp)
+    simp only [List.map_cons, List.flatten_cons]
+    rw [procRun_append, procRun_response m pr code reason hs]
+    simp only
+    rw [procRun_acc', ih (fun x hx => hall x (by simp [hx]))]
+    simp
+
+/-- header lookup, stated independently of the multimap representation: what the handler finds under a name is the
+    list of that field's values in arrival order (a plain `filter` over the field list) -/
+theorem header_lookup (fs : List (Bytes × Bytes)) (k : Bytes) :
+    (multimap fs).get k = (fs.filter (fun kv => kv.1 == k)).map (·.2) := multimap_get fs k
 
 end Http
